@@ -2,7 +2,7 @@
 (* Scenario: every request variant x handler outcome x authenticator kind,     *)
 (* through both entry points (the harness always runs both and compares), and  *)
 (* complete exchanges host -> decode -> dispatch -> encode.  C10.              *)
-EXTENDS Ctap, Gen
+EXTENDS Ctap, Gen, Lattice
 
 Scripts2 == {[ok |-> TRUE, err |-> 0]} \cup {[ok |-> FALSE, err |-> e] : e \in {1, 25, 39, 46, 49, 54}}
 Scripts1 == {[ok |-> TRUE, err |-> 0]} \cup {[ok |-> FALSE, err |-> e] : e \in {27013, 27264, 27904}}   \* 0x6985 0x6A80 0x6D00
@@ -34,7 +34,19 @@ Ctap1Constructed ==
       wire |-> <<ctl>> \o Pattern(7, n), script |-> s, hasLb |-> TRUE] :
         ctl \in U2fControlBytes, n \in {0, 1, 255, 256, 257, 1024}, s \in Scripts1}
 
-MC_Cases == Ctap2Cases \cup Ctap1Cases \cup VendorCases \cup Ctap1Constructed
+\* dispatch must not depend on WHAT the request carries: every member of every request over the
+\* lattice of its type (integers up to the type maximum, strings up to the capacity, ...)
+DispatchLattice ==
+    UNION {{[op |-> "dispatch", tag |-> "dispatch-lattice", proto |-> "ctap2", variant |-> CommandTable[c].name,
+             wire |-> HostEncode(c, sv, F), script |-> [ok |-> TRUE, err |-> 0], hasLb |-> lb] :
+               sv \in OneAtATime(CommandTable[c].schema, F, TRUE), lb \in (IF c = 12 THEN BOOLEAN ELSE {TRUE})}
+           : c \in {1, 2, 6, 10, 12}}
+    \cup {[op |-> "dispatch", tag |-> "dispatch-lattice", proto |-> "ctap2", variant |-> "LargeBlobs",
+            wire |-> HostEncode(12, [LbReqMin EXCEPT !.get = <<g>>, !.offset = o], F), script |-> s, hasLb |-> TRUE] :
+              g \in {BN(0), BN(3008), BN(3009), BN(65536), BNMaxU32}, o \in {BN(0), BNMaxU32},
+              s \in {[ok |-> TRUE, err |-> 0], [ok |-> FALSE, err |-> 51]}}
+
+MC_Cases == Ctap2Cases \cup Ctap1Cases \cup VendorCases \cup Ctap1Constructed \cup DispatchLattice
 
 (***************************************************************************)
 (* C10 on the model                                                        *)
